@@ -3,6 +3,7 @@ package validator
 import (
 	"bytes"
 	"reflect"
+	"sort"
 	"strings"
 
 	jbytes "github.com/jsightapi/jsight-schema-go-library/bytes"
@@ -149,7 +150,19 @@ func (v objectValidator) requiredKeysString() string {
 
 // validate with rules
 func (v objectValidator) validateTypeRules(value jbytes.Bytes) (string, bool) {
+	// Try the candidate key shortcuts in schema order, not in Go's randomised
+	// map order: when several shortcuts match, the first one declared wins.
+	keys := make([]string, 0, len(v.requiredKeys))
 	for key := range v.requiredKeys {
+		keys = append(keys, key)
+	}
+	sort.Slice(keys, func(i, j int) bool {
+		if v.requiredKeys[keys[i]] != v.requiredKeys[keys[j]] {
+			return v.requiredKeys[keys[i]] < v.requiredKeys[keys[j]]
+		}
+		return keys[i] < keys[j]
+	})
+	for _, key := range keys {
 		typ, ok := v.rootSchema.TypesList()[key]
 		if !ok {
 			continue
